@@ -49,7 +49,7 @@ var otherShapes = []otherShape{
 // search is a pure function of the drawn seed. A search that runs out of budget
 // returns the group found so far (len(UUIDs) may be < 2: nothing to add).
 func DrawGroup(t *rapid.T, label, hash string, mode int) Group {
-	hexd := rapid.SampledFrom([]int{4, 4, 5, 5, 6, 6, 6, 6, 8, 8}).Draw(t, label+"hex")
+	hexd := rapid.SampledFrom([]int{4, 4, 5, 5, 6, 6, 6, 6, 6, 8}).Draw(t, label+"hex")
 	want := 2
 	if hexd <= 5 && rapid.Bool().Draw(t, label+"triple") {
 		want = 3
